@@ -362,6 +362,15 @@ fn exec_call(sut: &mut Sut, s: &mut Sink, op: &Op) {
                     let shards: Vec<String> = all.iter().map(|k| format!("{}:{}", hex(k), st.verif_clock_shard(k))).collect();
                     let res = "ok".to_string() + &sut.tail();
                     s.emit("reopen", format!("reopen {} {} {}", sut.cfg.ttl as u8, now, if shards.is_empty() { "-".into() } else { shards.join(",") }), res);
+                    // what recovery fed the new handle's version clock: the shard of every key, right after the open
+                    let mut seen: Vec<usize> = vec![];
+                    for k in &all {
+                        let shard = st.verif_clock_shard(k);
+                        if !seen.contains(&shard) {
+                            seen.push(shard);
+                            s.emit("clock-after-reopen", format!("clock {}", shard), format!("ok {}", st.verif_clock_value(shard)));
+                        }
+                    }
                 }
                 Err(e) => {
                     s.emit("reopen", format!("reopen {} {} -", sut.cfg.ttl as u8, now), format!("err {}", err_name(&e)));
@@ -455,6 +464,8 @@ fn gen_ts(rng: &mut Rng, now: u64, last_explicit: &mut u64) -> Option<u64> {
         4 => Some(0),
         5 => Some(now),
         6 => Some(now + 1),
+        // pinned at the maximum: the one timestamp the version clock never absorbs (u64::MAX - 1 is finding F1 and stays out)
+        7 if rng.chance(1, 3) => Some(u64::MAX),
         _ => None,
     }
 }
@@ -718,6 +729,56 @@ fn replay(path: &str, s: &mut Sink, dir: &str, recsize: usize) {
     }
 }
 
+/// C14 at a scale the reference-map cases do not reach (the model's lists are small): a few thousand keys,
+/// windows and limits on both sides of every internal batch size of the scan (pre-allocation bound, re-pin
+/// interval), judged directly: exactly the live keys of the window, ascending, the first `limit` of them.
+fn scale_case(rng: &mut Rng, s: &mut Sink, dir: &str) {
+    use std::collections::BTreeMap as Map;
+    let mem = rng.chance(1, 2);
+    let path = format!("{}/scale.feox", dir);
+    let _ = std::fs::remove_file(&path);
+    let mut b = FeoxStore::builder().hash_bits(12).enable_ttl(false).no_memory_limit();
+    if !mem { b = b.device_path(path.clone()).file_size(64 << 20).enable_caching(rng.chance(1, 2)); }
+    let Ok(store) = b.build() else { return };
+    let n = rng.range(1100, 3000);
+    let mut model: Map<Vec<u8>, Vec<u8>> = Map::new();
+    for i in 0..n {
+        let k = format!("s{:06}", i * 3 + rng.below(3)).into_bytes();
+        let v = format!("v{}-{}", i, rng.below(1000)).into_bytes();
+        if store.insert(&k, &v).is_ok() { model.insert(k, v); }
+    }
+    let keys: Vec<Vec<u8>> = model.keys().cloned().collect();
+    for _ in 0..n / 7 {
+        let k = rng.pick(&keys).clone();
+        if rng.chance(1, 2) { if store.delete(&k).is_ok() { model.remove(&k); } }
+        else { let v = format!("w{}", rng.below(100000)).into_bytes(); if store.insert(&k, &v).is_ok() { model.insert(k, v); } }
+    }
+    if !mem && rng.chance(1, 2) { let _ = store.flush(); }
+    *s.hist.entry("scale case (range queries over thousands of keys)".into()).or_insert(0) += 1;
+    let windows: Vec<(Vec<u8>, Vec<u8>)> = vec![(b"s".to_vec(), b"t".to_vec()), (keys[keys.len() / 10].clone(), keys[keys.len() - keys.len() / 10].clone()), (keys[3].clone(), keys[keys.len() / 2].clone())];
+    for (a, z) in &windows {
+        for limit in [1usize, 255, 256, 257, 1000, 1023, 1024, 1025, 2000, 100_000, usize::MAX] {
+            let want: Vec<(Vec<u8>, Vec<u8>)> = model.range(a.clone()..=z.clone()).take(limit).map(|(k, v)| (k.clone(), v.clone())).collect();
+            match store.range_query(a, z, limit) {
+                Ok(got) if got == want => {}
+                Ok(got) => {
+                    if s.inv_fail.len() < 6 {
+                        let first_bad = got.iter().zip(want.iter()).position(|(g, w)| g != w).unwrap_or(got.len().min(want.len()));
+                        s.inv_fail.push(format!("C14\tscale case ({} store, {} live keys s000000.., inserted / deleted / rewritten{}): range_query({}, {}, {}) returned {} pairs where exactly {} live keys are in range (first difference at position {})",
+                            if mem { "memory-only" } else { "persistent" }, model.len(), if mem { "" } else { ", possibly flushed" }, String::from_utf8_lossy(a), String::from_utf8_lossy(z), limit, got.len(), want.len(), first_bad));
+                    }
+                }
+                Err(e) => if s.inv_fail.len() < 6 { s.inv_fail.push(format!("C14\tscale case: range_query over {} keys with limit {} failed: {}", model.len(), limit, err_name(&e))); }
+            }
+        }
+    }
+    if store.len() != model.len() && s.inv_fail.len() < 6 {
+        s.inv_fail.push(format!("C14,C13\tscale case: len() = {} with {} live keys", store.len(), model.len()));
+    }
+    drop(store);
+    let _ = std::fs::remove_file(&path);
+}
+
 fn main() {
     let args = parse_args();
     std::fs::create_dir_all(&args.out).unwrap();
@@ -732,6 +793,7 @@ fn main() {
         replay(p, &mut s, &args.out, recsize);
     } else {
         let cases: u64 = args.extra.iter().find_map(|e| e.strip_prefix("cases=").map(|v| v.parse().unwrap())).unwrap_or(if args.thorough { 400 } else { 40 });
+        scale_case(&mut Rng::new(args.seed ^ 0x5ca1e), &mut s, &args.out);
         for i in 0..cases {
             // all 2 x 2 x 2 x 3 configurations in rotation (memory-only ignores cache/format)
             let mem = i % 4 == 0;
